@@ -167,4 +167,28 @@ func init() {
 	}
 }
 
+func init() {
+	harnessAPI["verifAtEveryRelease"] = func(ex *Exec, fn *ssa.Function, a []Value) Value {
+		// verifAtEveryRelease(op, observer): runs op; each time op releases a mutex (Unlock / RUnlock) the
+		// observer - an operation of another goroutine that takes the same locks - is run to completion.  These
+		// are exactly the points at which a lock-respecting concurrent reader can observe the shared state.
+		prev := ex.lockHook
+		in := false
+		ex.lockHook = func(name string, recv Value) {
+			if prev != nil {
+				prev(name, recv)
+			}
+			if in || !strings.HasSuffix(name, "nlock") {
+				return
+			}
+			in = true
+			ex.call(a[1], nil, nil)
+			in = false
+		}
+		ex.call(a[0], nil, nil)
+		ex.lockHook = prev
+		return nil
+	}
+}
+
 var _ = term.True
